@@ -78,6 +78,9 @@ extern "C" void h_get_num()
     if (ok) OBL(r == s + n && num == h, "C19.num: a 0x number yields its value and consumes the whole token");
   }
   if (n == 0) OBL(r == 0, "C19.num: an empty string is not a number");
+  /* progress: the command loops (write, write16, write32) call get_num until it returns NULL, so a successful
+     parse must consume at least one character - otherwise the command never returns (C17) */
+  if (r != 0) OBL(r > s, "C19.num: a successful parse consumes at least one character (the command loops terminate)");
   CANARY("h_get_num end");
 }
 
